@@ -83,6 +83,9 @@ def ctx_table():
     T["object_key_write"] = (lambda v: [A.Declare(V("o"), A.obj(("s", A.Int(5)))), A.Assign(A.Index(V("o"), V(v)), A.Int(6)), P(V("o"))], {"string"})
     T["pattern_key"] = (lambda v: [A.Declare(A.ObjectE([A.Pair(V(v), V("got"))]), A.obj(("s", A.Int(5)))), P(V("got"))], {"string"})
     T["interp_slot"] = (lambda v: [P(A.IStr(["<", V(v), ">"]))], {"string"})
+    T["interp_lone_slot"] = (lambda v: [P(A.IStr([V(v)]))], {"string"})
+    T["interp_lone_slot_declared"] = (lambda v: [A.Declare(V("r"), A.IStr([V(v)])), P(A.Call(A.Prop(V("r"), "type", True), []))], {"string"})
+    T["interp_first_slot"] = (lambda v: [P(A.IStr([V(v), "|", V(v)]))], {"string"})
     T["list_spread"] = (lambda v: [P(A.ListE([(A.Int(0), False), (V(v), True)], False))], {"list"})
     T["arg_spread"] = (lambda v: [A.FuncStmt("g", [V("r")], True, [A.Return(V("r"))]), P(A.Call(V("g"), [(V(v), True)]))], {"list"})
     T["object_spread"] = (lambda v: [P(A.ObjectE([A.Single(V(v), True, False)]))], {"object"})
